@@ -156,6 +156,8 @@ pub struct World {
     pub seq: usize,
     /// Violations detected by the driver itself (panics, internal errors outside crash injection).
     pub driver_errors: Vec<String>,
+    /// Reference-model oracle (C05), run at the moment each step finishes.
+    pub model: Option<crate::model::ModelBank>,
     pub index: BTreeMap<validator::PublicKey, usize>,
 }
 
@@ -163,7 +165,7 @@ impl World {
     pub async fn new(cfg: SimCfg) -> Result<Self, String> {
         let committee = cfg.spec.build();
         let index = committee.schedule.keys().enumerate().map(|(i, k)| (k.clone(), i)).collect();
-        let mut w = World { committee, nodes: vec![], pool: vec![], steps: vec![], seq: 0, driver_errors: vec![], index, cfg };
+        let mut w = World { committee, nodes: vec![], pool: vec![], steps: vec![], seq: 0, driver_errors: vec![], model: None, index, cfg };
         for i in 0..w.cfg.spec.n() {
             if w.cfg.byz[i] {
                 w.nodes.push(None);
@@ -314,12 +316,25 @@ impl World {
         };
         self.steps.push(rec);
         self.seq += 1;
+        // (the proposal of a propose step is attached by `propose()`, which then runs the model check itself)
+        if !matches!(self.steps.last().unwrap().input, Input::Propose) {
+            self.check_model(self.steps.len() - 1);
+        }
         if let Some(e) = internal {
             // an internal error ends the real run() loop: the process is down until restarted
             if !crashed {
                 self.driver_errors.push(format!("node {i}: internal error outside an injected crash: {e}"));
             }
             self.node_mut(i).run.as_mut().unwrap().replica = None;
+        }
+    }
+
+    fn check_model(&mut self, step: usize) {
+        if let Some(mut bank) = self.model.take() {
+            if let Err(e) = bank.check(self, &self.steps[step]) {
+                self.driver_errors.push(format!("SPEC: {e}"));
+            }
+            self.model = Some(bank);
         }
     }
 
@@ -422,15 +437,18 @@ impl World {
             })
         })
         .await;
-        let m = slot.lock().unwrap().take()?;
-        let idx = self.add_to_pool(m, false);
-        if let Some(rec) = self.steps.get_mut(before_len) {
+        let m = slot.lock().unwrap().take();
+        let idx = m.map(|m| self.add_to_pool(m, false));
+        if let (Some(idx), Some(rec)) = (idx, self.steps.get_mut(before_len)) {
             if let StepOut::Proposed(Ok(Some(x))) = &mut rec.out {
                 *x = idx;
             }
             rec.emitted.push(idx);
         }
-        Some(idx)
+        if self.steps.len() > before_len && matches!(self.steps[before_len].input, Input::Propose) {
+            self.check_model(before_len);
+        }
+        idx
     }
 
     /// Block sync: node `to` receives every durable block of node `from` that it does not have yet.
